@@ -53,11 +53,15 @@ def main(tier, replay):
     jobs[-1]['opt']['max_steps'] = 80000000
     J('bitpacked-129-groups-w2-p4', 'p4', [0, 1030, 1, 1, 1, 0, 0, 0, 0, 0, 0])
     jobs[-1]['opt']['max_steps'] = 80000000
+    # RLE runs of 8200 levels (run header of three LEB128 bytes)
+    for fs in ((1,) if quick else (0, 1)):
+        J('rle-run-8200-flat_int64-fs%d' % fs, 'flat_int64', [0, 8200, fs, 1, 1, 0, 0, 1, 0, 0, 0])
+        jobs[-1]['opt'].update(max_steps=600000000, max_alloc=400000)
     J('sens-rows', 'p1', [0, 2, 1, 1, 1, 0, 0, 1, 0, 0, 1], expect='Rows')
     run_program_jobs(c, mod, infos, jobs, native_templates=NATIVE)
     c.programs = len(P)
     c.bounds = {'records': '3 fixed-structure records (three structures), or 1 free + 1 fixed; long pages of 9, 17 and 520 (1030 thorough) records',
-                'level streams': 'five run-segmentation strategies (single bit-packed run with SYMBOLIC padding values in the last group; maximal RLE runs incl. length 1; RLE for repeats >= 2 else bit-packed groups; every RLE run split in two; bit-packed prefix + RLE tail); bit-packed runs of 65, 129 and 257 groups (width 1) and 129 groups (width 2)',
+                'level streams': 'five run-segmentation strategies (single bit-packed run with SYMBOLIC padding values in the last group; maximal RLE runs incl. length 1; RLE for repeats >= 2 else bit-packed groups; every RLE run split in two; bit-packed prefix + RLE tail); bit-packed runs of 65, 129 and 257 groups (width 1) and 129 groups (width 2); RLE runs of 8200 levels (three-byte header)',
                 'pages / row groups': 'one page per chunk, one page per record, chosen at every record boundary; one row group, one per record, chosen', 'codec': 'fixed, or chosen independently per column',
                 'optional thrift fields': 'created_by, key_value_metadata, crc present or absent; page Statistics absent / null_count only / min_value+max_value only / all six members, chosen once per file (per page for programs of <= 3 columns); in the same jobs the encoding field of a level kind the column does not store is any enum value 0..9',
                 'outside': 'NOT decided: real snappy streams with literals and copies (A3: the snappy decoder is a stub) and the thrift wire form of optional fields (A2); more than 3 runs kinds per stream beyond the five strategies'}
